@@ -686,62 +686,103 @@ func crossingConventionRule(p *core.Program, r *core.Report, rule string) {
 // distinct points, or the result of reduce (which pads to three).
 func grahamPreconditionRule(p *core.Program, r *core.Report, rule string) {
 	r.Rule(rule, "grahamScan pushes coordinates 0, stride and 2*stride of its argument unconditionally; at its call site the argument is, on every incoming edge, either the result of reduce (all of whose returns are padded or tested to hold three coordinates) or the very array whose length/stride was tested == 1 and == 2 with early returns (the tests must be on the de-duplicated array, not on the raw input)", 1)
-	fn := mustFn(p, r, rule, "xy", "(*convexHullCalculator).getConvexHull")
-	if fn == nil {
+	entry := mustFn(p, r, rule, "xy", "(*convexHullCalculator).getConvexHull")
+	if entry == nil {
 		return
 	}
+	// the function that calls grahamScan: getConvexHull or a helper its tail was moved into
+	var fn *ssa.Function
 	var call *ssa.Call
-	for _, c := range eng.Calls(fn) {
-		if f := c.Common().StaticCallee(); f != nil && f.Name() == "grahamScan" {
-			call, _ = c.(*ssa.Call)
+	for _, f := range pkgFuncs(p, "xy") {
+		for _, c := range eng.Calls(f) {
+			if g := c.Common().StaticCallee(); g != nil && g.Name() == "grahamScan" {
+				if cc, ok := c.(*ssa.Call); ok {
+					fn, call = f, cc
+				}
+			}
 		}
 	}
 	if call == nil {
-		r.Lost(rule, short(fn)+"/grahamScan", "getConvexHull no longer calls grahamScan")
+		r.Lost(rule, short(entry)+"/grahamScan", "no function of package xy calls grahamScan any more")
 		return
 	}
-	arg := call.Call.Args[1]
-	var cands []ssa.Value
-	if phi, ok := arg.(*ssa.Phi); ok {
-		cands = append(cands, phi.Edges...)
-	} else {
-		cands = []ssa.Value{arg}
-	}
-	bad := ""
-	for _, v := range cands {
+	// tested(f, v, site): v passed the one-point and two-point early returns in f before site
+	var tested func(f *ssa.Function, v ssa.Value, site *ssa.BasicBlock, depth int) string
+	tested = func(f *ssa.Function, v ssa.Value, site *ssa.BasicBlock, depth int) string {
 		if c, ok := v.(*ssa.Call); ok {
-			if f := c.Call.StaticCallee(); f != nil && f.Name() == "reduce" {
+			if g := c.Call.StaticCallee(); g != nil && g.Name() == "reduce" {
 				// reduce(x): x must itself be count-tested (reduce returns x unchanged when the octagon degenerates)
 				v = c.Call.Args[1]
 			}
 		}
-		// v must be the operand of len(v)/stride == 1 and == 2 tests whose true edges return
-		tested := map[int64]bool{}
+		if phi, ok := v.(*ssa.Phi); ok {
+			for _, e := range phi.Edges {
+				if why := tested(f, e, site, depth); why != "" {
+					return why
+				}
+			}
+			return ""
+		}
+		if prm, ok := v.(*ssa.Parameter); ok && depth < 3 {
+			// the array is handed in: every caller in the package must have tested it
+			idx := -1
+			for i, q := range f.Params {
+				if q == prm {
+					idx = i
+				}
+			}
+			n := 0
+			for _, g := range pkgFuncs(p, "xy") {
+				for _, c := range eng.Calls(g) {
+					if c.Common().StaticCallee() == f && idx >= 0 && idx < len(c.Common().Args) {
+						n++
+						if why := tested(g, c.Common().Args[idx], c.Block(), depth+1); why != "" {
+							return why
+						}
+					}
+				}
+			}
+			if n == 0 {
+				return "the array reaching grahamScan is a parameter of " + short(f) + ", which has no caller in the package"
+			}
+			return ""
+		}
+		found := map[int64]bool{}
 		blocked := eng.EdgeSet{}
-		for _, b := range fn.Blocks {
-			c, ok := eng.EdgeCmp(b, 0)
-			if !ok || c.Op != token.EQL {
-				continue
+		for _, b := range f.Blocks {
+			for edge := 0; edge < 2; edge++ {
+				c, ok := eng.EdgeCmp(b, edge)
+				if !ok || c.Op != token.EQL {
+					continue
+				}
+				x, y := c.X, c.Y
+				if _, isK := eng.ConstInt(x); isK {
+					x, y = y, x
+				}
+				k, isK := eng.ConstInt(y)
+				q, isQ := x.(*ssa.BinOp)
+				if !isK || !isQ || q.Op != token.QUO {
+					continue
+				}
+				lx, isL := eng.LenOf(q.X)
+				if !isL || !(lx == v || eng.Equiv(lx, v)) {
+					continue
+				}
+				found[k] = true
+				blocked[[2]int{b.Index, 1 - edge}] = true // the edge on which the count differs from k
 			}
-			k, isK := eng.ConstInt(c.Y)
-			q, isQ := c.X.(*ssa.BinOp)
-			if !isK || !isQ || q.Op != token.QUO {
-				continue
-			}
-			lc, isL := q.X.(*ssa.Call)
-			if !isL || eng.BuiltinName(lc) != "len" || lc.Call.Args[0] != v {
-				continue
-			}
-			tested[k] = true
-			blocked[[2]int{b.Index, 1}] = true
 		}
-		if !(tested[1] && tested[2]) {
-			bad = fmt.Sprintf("the array %s reaching grahamScan is not the one whose coordinate count was tested against 1 and 2 (tests found on it: %v): duplicates can leave fewer than three distinct points, the scan then reads zero-filled capacity and (0,0) becomes a hull vertex", v.Name(), keys(tested))
-		} else if eng.Reachable(fn.Blocks[0], blocked)[call.Block()] {
-			bad = "grahamScan is reachable without passing the count tests"
+		if !(found[1] && found[2]) {
+			return fmt.Sprintf("the array %s reaching grahamScan is not the one whose coordinate count was tested against 1 and 2 (tests found on it: %v): duplicates can leave fewer than three distinct points, the scan then reads zero-filled capacity and (0,0) becomes a hull vertex", v.Name(), keys(found))
 		}
+		// the site must be reachable only along the "differs" edges of both tests: delete them and it is cut off
+		if eng.Reachable(f.Blocks[0], blocked)[site] {
+			return "grahamScan is reachable without passing the count tests"
+		}
+		return ""
 	}
-	r.Check(bad == "", rule, short(fn)+"/grahamScan", p.Pos(call.Pos()), true, "every array reaching the scan passed the one-point and two-point early returns", bad)
+	bad := tested(fn, call.Call.Args[1], call.Block(), 0)
+	r.Check(bad == "", rule, short(entry)+"/grahamScan", p.Pos(call.Pos()), true, "every array reaching the scan passed the one-point and two-point early returns", bad)
 }
 
 // denominatorSignRule (C15): a value that is tested for zero as a denominator may be compared with other
